@@ -1,7 +1,7 @@
 //! C11 — concurrent readers and the indexer can never deadlock the server.
 //!
 //! Stage A: lock-discipline monitor (offline checker over the lock-event log of every method run
-//! single-threaded). In the mid-block state one executing read (eth_call) is run through its 5-second give-up path. Stage B: each candidate is confirmed by a forced schedule in a child process
+//! single-threaded). Besides every registered method with well-formed parameters, a call addressed by inscription id and a transaction replacing / repeating a waiting one are run. In the mid-block state one executing read (eth_call) is run through its 5-second give-up path. Stage B: each candidate is confirmed by a forced schedule in a child process
 //! (pause at the nested acquisition, let a writer queue up, release, observe the wait-for cycle).
 //! Stress: many readers + indexer + maintenance thread with delays injected at acquisitions.
 
@@ -226,7 +226,16 @@ fn stage_a(shared: &Arc<Shared>, out: &mut ChildOut) -> BTreeMap<Nest, (String, 
     let mut by_method: BTreeMap<Nest, BTreeSet<String>> = BTreeMap::new();
     for state in ["empty", "initialised", "committed", "mid-block"] {
         let Some((mut inst, mut st)) = setup_engine(state) else { continue };
-        let names = inst.method_names();
+        let mut names = inst.method_names();
+        // variants of methods whose rarely taken branches take locks differently: a call addressed by
+        // inscription id, a transaction replacing / repeating one that waits in the pool
+        if state != "empty" {
+            names.push("brc20_call#by-inscription-id".to_string());
+        }
+        if state == "mid-block" {
+            names.push("brc20_transact#replace-waiting".to_string());
+            names.push("brc20_transact#repeat-waiting".to_string());
+        }
         for m in &names {
             st.n += 1;
             st.fresh_hash = crate::hist::bh((0xf11_0000u64 + st.n) as u64);
@@ -236,9 +245,34 @@ fn stage_a(shared: &Arc<Shared>, out: &mut ChildOut) -> BTreeMap<Nest, (String, 
             if state == "mid-block" && matches!(m.as_str(), "eth_callMany" | "eth_estimateGas" | "eth_estimateGasMany" | "brc20_balance") {
                 continue;
             }
-            let Some(p) = template(m, &st) else { continue };
+            let (m, p): (&String, Value) = match m.as_str() {
+                "brc20_call#by-inscription-id" => {
+                    let mut p = template("brc20_call", &st).unwrap_or(json!({}));
+                    if let Some(o) = p.as_object_mut() {
+                        o.remove("contract_address");
+                        o.insert("contract_inscription_id".into(), json!("c12-setup-tool"));
+                        if state == "mid-block" {
+                            o.insert("timestamp".into(), json!(9));
+                            o.insert("hash".into(), json!(crate::hist::bh(0x11b10c)));
+                            o.insert("tx_idx".into(), json!(1));
+                        }
+                    }
+                    (m, p)
+                }
+                "brc20_transact#replace-waiting" | "brc20_transact#repeat-waiting" => {
+                    // signer 62 has nonce 1 waiting (see setup_engine): the same nonce again
+                    let s2 = Signer::new(62);
+                    let inc = if m.ends_with("repeat-waiting") { 2 } else { 3 };
+                    let raw = s2.sign(Some(rpc::chain_id_for("regtest")), 1, Some(hist::parse_addr(&st.tool)), &asm::tool_call(asm::OP_INC, &[asm::word_u64(inc)], &[]));
+                    (m, json!({"raw_tx_data": format!("0x{}", raw), "timestamp": 9, "hash": crate::hist::bh(0x11b10c), "tx_idx": 1, "inscription_id": format!("c11-again-{}", st.n), "inscription_byte_len": 100000, "op_return_tx_id": hist::ZERO_HASH}))
+                }
+                _ => {
+                    let Some(p) = template(m, &st) else { continue };
+                    (m, p)
+                }
+            };
             let before: BTreeMap<Nest, u64> = shared.m.lock().unwrap().nests.clone();
-            let r = inst.call(m, p.clone());
+            let r = inst.call(m.split('#').next().unwrap_or(m), p.clone());
             out.methods_run += 1;
             if let Resp::Panic(msg) = &r {
                 if msg.contains("self-deadlock avoided") {
@@ -251,7 +285,7 @@ fn stage_a(shared: &Arc<Shared>, out: &mut ChildOut) -> BTreeMap<Nest, (String, 
             for (n, c) in after {
                 if before.get(&n).cloned().unwrap_or(0) < c {
                     by_method.entry(n.clone()).or_default().insert(m.clone());
-                    origin.entry(n).or_insert((state.to_string(), m.clone(), p.clone()));
+                    origin.entry(n).or_insert((state.to_string(), m.split('#').next().unwrap_or(m).to_string(), p.clone()));
                 }
             }
             // undo open blocks left by templates, so the next method starts from a boundary
